@@ -3,7 +3,7 @@
 # `verus` can be run as the compiler of the spliced real crate; warm the Kani dependency build.
 set -euo pipefail
 export CARGO_NET_OFFLINE=true
-V=/verif
+V=$(cd "$(dirname "$0")/.." && pwd)
 C=$V/.cache
 mkdir -p "$C"
 rm -rf "$C/depsrc"; mkdir -p "$C/depsrc"
